@@ -42,6 +42,7 @@ type c13Case struct {
 	genTxt     string   // JSON text of Generate(Extract(schema)), "" if unavailable
 	genSkip    string   // why the reverse direction was skipped
 	shape      string   // top-level shape of the extracted CUE (skeleton cases only)
+	flags      string   // facts about the extracted CUE used for class tags (c13AstFlags)
 	skel       *skelCase
 	evalMillis int64
 }
@@ -109,6 +110,7 @@ func c13Eval(ctx *cue.Context, cs *c13Case, doGen bool) {
 	if cs.skel != nil {
 		cs.shape = c13Shape(f)
 	}
+	cs.flags = c13AstFlags(f)
 	cv := ctx.BuildFile(f)
 	if cv.Err() != nil {
 		cs.importErr = "compile-error"
@@ -166,7 +168,9 @@ func runC13(c *Cfg) {
 		c13Worker()
 		return
 	}
-	r := NewRng(c.Seed)
+	// NewRng(seed+1) is NewRng(seed) advanced by one step, so consecutive seeds would replay the
+	// same cases shifted by one: decorrelate through one mixing step
+	r := NewRng(c.Seed*1000003 + 12345).Sub()
 	var cases []*c13Case
 
 	// 1. fixed corpus: minimal inputs of every divergence seen so far + witnesses of the
@@ -199,7 +203,7 @@ func runC13(c *Cfg) {
 	}
 
 	// 3. generated schemas with schema-directed and random instances
-	nSchemas := c.Pick(2600, 60000)
+	nSchemas := c.Pick(2000, 24000)
 	nInst := c.Pick(10, 12)
 	if c.Focus {
 		nSchemas = c.Pick(4000, 40000)
@@ -288,7 +292,7 @@ func c13Emit(c *Cfg, cs *c13Case) {
 			nTrue++
 		}
 		c.Count("verdict:" + v)
-		tag := c13Class(cs.schema, cs.insts[i])
+		tag := c13Class(cs.schema, cs.insts[i], cs.flags)
 		c.OpTag("O", tag, "valid "+sh+" "+H(it), v)
 		if tag != "" {
 			c.Count("tagged:" + tag)
@@ -303,7 +307,7 @@ func c13Emit(c *Cfg, cs *c13Case) {
 	g, _ := parseJV(cs.genTxt)
 	gh := H(cs.genTxt)
 	for i, it := range cs.instTxt {
-		tag := c13GenClass(cs.schema, g, cs.insts[i])
+		tag := c13GenClass(cs.schema, g, cs.insts[i], cs.flags)
 		c.OpTag("O", tag, "agree "+sh+" "+gh+" "+H(it), "same")
 		if tag != "" {
 			c.Count("tagged:" + tag)
